@@ -112,7 +112,7 @@
   items file; for item i writes `i\tOK\t<text>` or `i\tERR\t<text>`.
   The handler returns a string. A line `i\tBEGIN` is written (and flushed)
   before items when VERIF_BATCH_TRACE is set, for crash attribution.```
-  [handler]
+  [handler &opt setup]
   (def args (dyn :args))
   (def items-path (get args 1))
   (def out-path (get args 2))
@@ -129,6 +129,7 @@
     (file/write out res)
     (when (or trace (= 0 (% i 64))) (file/flush out))
     (++ i))
+  (when setup (setup))
   (parser/consume p src)
   (parser/eof p)
   (while (parser/has-more p)
